@@ -1930,8 +1930,28 @@ class Processor:
         ):
             # Give each element the same parent and its relative index
             node_coord = node_coords[0]
+            is_document_array = node_coord.node is self.data
+            if not is_document_array and node_coord.parent is not None:
+                try:
+                    is_document_array = (
+                        node_coord.parent[node_coord.parentref]
+                        is node_coord.node)
+                except (KeyError, IndexError, TypeError):
+                    is_document_array = False
             flat_nodes = []
             for flatten_idx, flatten_node in enumerate(node_coord.node):
+                if (is_document_array
+                        and not isinstance(flatten_node, NodeCoords)):
+                    # An Array of the document:  its elements are its own
+                    # children, not children of the Array's parent
+                    flat_nodes.append(
+                        NodeCoords(
+                            flatten_node, node_coord.node, flatten_idx,
+                            (node_coord.path if node_coord.path is not None
+                             else YAMLPath("")) + "[{}]".format(flatten_idx),
+                            node_coord.ancestry
+                            + [(node_coord.node, flatten_idx)], pathseg))
+                    continue
                 flat_nodes.append(
                     NodeCoords(
                         flatten_node, node_coord.parent, flatten_idx,
